@@ -231,6 +231,36 @@ func c04Run(c *fw.C, caseID string) {
 func c04Attack(c *fw.C, n *simnet.Node, w *simnet.Workload, r *rand.Rand) {
 	users := w.Users
 	u := users[r.Intn(len(users))]
+	if r.Intn(6) == 0 {
+		// a user account tries to receive a send that is addressed to an embedded contract (confirmed recently; the
+		// contract itself has received it already or will in the next momentum)
+		H := n.Height()
+		lo := uint64(2)
+		if H > 12 {
+			lo = H - 10
+		}
+		var cands []types.Hash
+		for h := lo; h <= H; h++ {
+			if d := n.Detailed(h); d != nil {
+				for _, b := range d.AccountBlocks {
+					for _, x := range append([]*nom.AccountBlock{b}, b.DescendantBlocks...) {
+						if x.IsSendBlock() && types.IsEmbeddedAddress(x.ToAddress) {
+							cands = append(cands, x.Hash)
+						}
+					}
+				}
+			}
+		}
+		if len(cands) > 0 {
+			_, e := n.Receive(u, cands[r.Intn(len(cands))])
+			res := "refused"
+			if e == nil {
+				res = "accepted"
+			}
+			c04Note(c, "attack/user-receives-send-addressed-to-contract/"+res)
+		}
+		return
+	}
 	hashes := w.Unreceived(u.Address, 8)
 	if len(hashes) == 0 {
 		return
